@@ -499,6 +499,40 @@ func historiesSpec(depth int) seqmc.Spec {
 	}}
 }
 
+// manyTargetsSpec: configurations with 0, 5 or 6 targets at once (all on one
+// request, or alternating between two), request contents A / B, addresses x / y:
+// one load adds, updates or deletes five or six targets together (closure).
+func manyTargetsSpec() seqmc.Spec {
+	var ops []loadOp
+	var names []string
+	for _, n := range []int{0, 5, 6} {
+		for _, r1 := range []string{"A", "B"} {
+			for _, addr := range []string{"x", "y"} {
+				for _, split := range []bool{false, true} {
+					if n == 0 && (addr == "y" || split) {
+						continue
+					}
+					n, r1, addr, split := n, r1, addr, split
+					o := loadOp{name: fmt.Sprintf("%d targets at %s, r1=%s r2=A, alternating requests=%v rev+1", n, addr, r1, split), rev: 1, cfg: func() *tpb.Configuration {
+						c := &tpb.Configuration{Request: map[string]*gpb.SubscribeRequest{"r1": request(r1), "r2": request("A")}, Target: map[string]*tpb.Target{}}
+						for i := 1; i <= n; i++ {
+							rq := "r1"
+							if split && i%2 == 0 {
+								rq = "r2"
+							}
+							c.Target[fmt.Sprintf("t%d", i)] = &tpb.Target{Addresses: []string{addr}, Request: rq}
+						}
+						return c
+					}}
+					ops = append(ops, o)
+					names = append(names, o.name)
+				}
+			}
+		}
+	}
+	return seqmc.Spec{Name: "configurations with 0 / 5 / 6 targets: one load adds, updates or deletes five or six targets together (closure)", Ops: names, Depth: 30, New: func() seqmc.Sys { fullMemory = false; return newSys(ops, false, false) }}
+}
+
 func (harness) Specs(tier string) []seqmc.Spec {
 	ex := extremes()
 	var exNames []string
@@ -543,7 +577,7 @@ func (harness) Specs(tier string) []seqmc.Spec {
 			sharedNames = append(sharedNames, o.name)
 		}
 		sharedSpec := seqmc.Spec{Name: "from NewConfig 2 targets NAMED LIKE the requests r1, r2 (closure)", Ops: sharedNames, Depth: 30, New: func() seqmc.Sys { fullMemory = false; return newSys(sharedOps, false, false) }}
-		return append(append(append(append(append(mk("2 targets, full rejected-load memory", universe(false), true), mk("3 targets", universe(true), false)...), sharedSpec), extSpecOf()), exSpec), historiesSpec(5))
+		return append(append(append(append(append(mk("2 targets, full rejected-load memory", universe(false), true), mk("3 targets", universe(true), false)...), sharedSpec), extSpecOf()), exSpec), historiesSpec(5), manyTargetsSpec())
 	}
 	// target names that are also request names (per-device requests named after the device)
 	sharedOps := universe(false, "r1", "r2", "t3")
@@ -552,7 +586,7 @@ func (harness) Specs(tier string) []seqmc.Spec {
 		sharedNames = append(sharedNames, o.name)
 	}
 	sharedSpec := seqmc.Spec{Name: "from NewConfig 2 targets NAMED LIKE the requests r1, r2 (closure)", Ops: sharedNames, Depth: 30, New: func() seqmc.Sys { fullMemory = false; return newSys(sharedOps, false, false) }}
-	return append(append(append(append(mk("2 targets", universe(false), false), sharedSpec), extSpecOf()), exSpec), historiesSpec(4))
+	return append(append(append(append(mk("2 targets", universe(false), false), sharedSpec), extSpecOf()), exSpec), historiesSpec(4), manyTargetsSpec())
 }
 
 func main() { seqmc.Main(harness{}) }
